@@ -18,8 +18,10 @@ theorem accept_iff (c : Cl) (e : Ev) (b : Body) (sw : List Nat) :
     (processCommit c e b sw).2 = .commit ↔ (isAdmin c.g e.sender = true ∨ isPureSelfUpdate b sw = true) := by
   unfold processCommit
   by_cases h : (isAdmin c.g e.sender || isPureSelfUpdate b sw) = true
-  · simp only [h, Bool.not_true, Bool.false_eq_true, if_false, true_iff]
-    simpa using h
+  · simp only [h, Bool.not_true, Bool.false_eq_true, if_false]
+    constructor
+    · intro _; simpa using h
+    · intro _; split <;> rfl
   · have h' : (isAdmin c.g e.sender || isPureSelfUpdate b sw) = false := by simpa using h
     simp only [h', Bool.not_false, if_true]
     constructor
@@ -33,13 +35,21 @@ theorem reject_frame (c : Cl) (e : Ev) (b : Body) (sw : List Nat)
   unfold processCommit
   simp [h]
 
-/-- **nonadmin_effect**: an ACCEPTED commit whose author is not an admin changes neither the member
-    set, nor the admin set, nor the group data -/
+/-- the group data of an MLS state (the whole `NostrGroupDataExtension` as modelled) and the roster -/
+def rosterAndData (g : GState) : List Nat × GData := (g.members, dataOf g)
+
+/-- **nonadmin_effect**: an ACCEPTED commit whose author is not an admin (in the RECEIVER's current state)
+    changes neither the member set, nor the admin set, nor any other field of the group data (name,
+    description, relays, nostr group id) — in the MLS state and in the stored record alike -/
 theorem nonadmin_effect (c : Cl) (e : Ev) (b : Body) (sw : List Nat)
     (hna : isAdmin c.g e.sender = false) (hacc : (processCommit c e b sw).2 = .commit)
     (hk : e.kind = .commit b sw) :
     (processCommit c e b sw).1.g.members = c.g.members ∧ (processCommit c e b sw).1.g.admins = c.g.admins ∧
-    (processCommit c e b sw).1.g.name = c.g.name := by
+    (processCommit c e b sw).1.g.name = c.g.name ∧ (processCommit c e b sw).1.g.desc = c.g.desc ∧
+    (processCommit c e b sw).1.g.relays = c.g.relays ∧ (processCommit c e b sw).1.g.nid = c.g.nid ∧
+    (processCommit c e b sw).1.g.recAdmins = c.g.admins ∧ (processCommit c e b sw).1.g.recName = c.g.name ∧
+    (processCommit c e b sw).1.g.recDesc = c.g.desc ∧ (processCommit c e b sw).1.g.recRelays = c.g.relays ∧
+    (processCommit c e b sw).1.g.recNid = c.g.nid := by
   have hp : isPureSelfUpdate b sw = true := by
     rcases (accept_iff c e b sw).mp hacc with h | h
     · rw [hna] at h; cases h
@@ -49,57 +59,237 @@ theorem nonadmin_effect (c : Cl) (e : Ev) (b : Body) (sw : List Nat)
     exact ⟨rfl, by simpa using hp⟩
   obtain ⟨rfl, rfl⟩ := hb
   unfold processCommit
-  simp only [hna, hp, Bool.or_true, Bool.not_true, Bool.false_eq_true, if_false]
+  have hme : removesMe c.id .selfUpdate [] = false := rfl
+  simp only [hna, hp, hme, Bool.or_true, Bool.not_true, Bool.false_eq_true, if_false]
   have hf := fun g => ensureSecret_fields g
-  simp [setRec, syncRec, mergeCommit, hk, applyBody, mgrCreate, (hf _).2.1, (hf _).2.2.1, (hf _).2.2.2.1]
+  have hd := fun g => ensureSecret_data g
+  simp [setRec, syncRec, mergeCommit, hk, applyBody, mgrCreate, (hf _).2.1, (hf _).2.2.1, (hf _).2.2.2.1,
+    (hd _).1, (hd _).2.1, (hd _).2.2.1]
+
+/-- the same as one equation: roster and group data after = before -/
+theorem nonadmin_effect_data (c : Cl) (e : Ev) (b : Body) (sw : List Nat)
+    (hna : isAdmin c.g e.sender = false) (hacc : (processCommit c e b sw).2 = .commit)
+    (hk : e.kind = .commit b sw) : rosterAndData (processCommit c e b sw).1.g = rosterAndData c.g := by
+  obtain ⟨h1, h2, h3, h4, h5, h6, _⟩ := nonadmin_effect c e b sw hna hacc hk
+  simp [rosterAndData, dataOf, h1, h2, h3, h4, h5, h6]
+
+/-- **data_update_admin_only**: `update_group_data` publishes a commit only if the caller is an admin in its
+    OWN current MLS state, a new admin set (if given) is non-empty and consists of current members, and no
+    commit is pending; the commit then carries exactly the caller's current extension with the named fields
+    replaced (admins / relays as sets) -/
+theorem data_update_admin_only (c : Cl) (n ts idn : Nat) (u : DataUpd) (e : Ev)
+    (h : (updateData c n ts idn u).2 = .ev e) :
+    c.g.active = true ∧ isAdmin c.g c.id = true ∧ c.g.pending = none ∧
+    (∀ a, u.admins = some a → a ≠ [] ∧ ∀ x ∈ a, x ∈ c.g.members) ∧
+    e.sender = c.id ∧ e.path = c.g.path ∧
+    e.kind = .commit (.setData (applyUpd (dataOf c.g) u)) c.g.props := by
+  unfold updateData at h
+  cases hg : c.hasGroup with
+  | false => rw [hg] at h; cases h
+  | true =>
+    rw [hg] at h
+    simp only [Bool.not_true, Bool.false_eq_true, if_false] at h
+    cases hv : adminsArgBad c.g u with
+    | true => rw [hv] at h; cases h
+    | false =>
+      rw [hv] at h
+      simp only [Bool.false_eq_true, if_false] at h
+      unfold stageCommit at h
+      rw [hg] at h
+      simp only [Bool.not_true, Bool.false_eq_true, if_false, Bool.true_and] at h
+      cases hact : c.g.active with
+      | false => rw [hact] at h; cases h
+      | true =>
+      rw [hact] at h
+      simp only [Bool.not_true, Bool.false_eq_true, if_false] at h
+      cases hadm : isAdmin c.g c.id with
+      | false => rw [hadm] at h; cases h
+      | true =>
+        rw [hadm] at h
+        simp only [Bool.not_true, Bool.false_eq_true, if_false] at h
+        cases hpend : c.g.pending with
+        | some p => rw [hpend] at h; cases h
+        | none =>
+          rw [hpend] at h
+          simp only [Option.isSome_none, Bool.false_eq_true, if_false] at h
+          injection h with h; subst h
+          refine ⟨rfl, rfl, rfl, ?_, rfl, ensureSecret_path _, by simp⟩
+          intro a ha
+          simp only [adminsArgBad, ha] at hv
+          have hv' : adminUpdateOk c.g a = true := by simpa using hv
+          simp only [adminUpdateOk, Bool.and_eq_true, Bool.not_eq_true', List.all_eq_true] at hv'
+          constructor
+          · intro h0; subst h0; simp at hv'
+          · intro x hx
+            simpa using hv'.2 x hx
+
+/-- **roster_change_admin_only**: `add_members` / `remove_members` publish a commit only if the caller is an
+    active member and an admin in its OWN current MLS state and no commit is pending; an add needs a stored relay and
+    nobody who is a member already; a removal names exactly the listed members that ARE members (at least one) -/
+theorem roster_change_admin_only (c : Cl) (n ts idn : Nat) (who : List Nat) (e : Ev) :
+    ((addMembers c n ts idn who).2 = .ev e →
+      c.g.active = true ∧ isAdmin c.g c.id = true ∧ c.g.pending = none ∧ c.g.recRelays ≠ [] ∧
+      (∀ x ∈ who, x ∉ c.g.members) ∧ e.kind = .commit (.addMembers who) c.g.props) ∧
+    ((removeMembers c n ts idn who).2 = .ev e →
+      c.g.active = true ∧ isAdmin c.g c.id = true ∧ c.g.pending = none ∧
+      who.filter (fun m => c.g.members.contains m) ≠ [] ∧
+      e.kind = .commit (.removeLeavers (who.filter (fun m => c.g.members.contains m))) c.g.props) := by
+  have stage : ∀ b, (stageCommit c n ts idn b true).2 = .ev e →
+      c.g.active = true ∧ isAdmin c.g c.id = true ∧ c.g.pending = none ∧ e.kind = .commit b c.g.props := by
+    intro b h
+    unfold stageCommit at h
+    cases hg : c.hasGroup with
+    | false => rw [hg] at h; cases h
+    | true =>
+      rw [hg] at h
+      simp only [Bool.not_true, Bool.false_eq_true, if_false, Bool.true_and] at h
+      cases hact : c.g.active with
+      | false => rw [hact] at h; cases h
+      | true =>
+        rw [hact] at h
+        simp only [Bool.not_true, Bool.false_eq_true, if_false] at h
+        cases hadm : isAdmin c.g c.id with
+        | false => rw [hadm] at h; cases h
+        | true =>
+          rw [hadm] at h
+          simp only [Bool.not_true, Bool.false_eq_true, if_false] at h
+          cases hpend : c.g.pending with
+          | some p => rw [hpend] at h; cases h
+          | none =>
+            rw [hpend] at h
+            simp only [Option.isSome_none, Bool.false_eq_true, if_false] at h
+            injection h with h; subst h
+            exact ⟨rfl, rfl, rfl, by simp⟩
+  constructor
+  · intro h
+    unfold addMembers at h
+    split at h
+    · cases h
+    · split at h
+      · cases h
+      · split at h
+        · cases h
+        · split at h
+          · cases h
+          · split at h
+            · cases h
+            · rename_i _ _ _ hrel hany
+              obtain ⟨h1, h2, h3, h4⟩ := stage _ h
+              refine ⟨h1, h2, h3, ?_, ?_, h4⟩
+              · intro h0; rw [h0] at hrel; exact hrel rfl
+              · intro x hx hm
+                apply hany
+                simp only [List.any_eq_true]
+                exact ⟨x, hx, by simpa using hm⟩
+  · intro h
+    unfold removeMembers at h
+    split at h
+    · cases h
+    · split at h
+      · cases h
+      · split at h
+        · cases h
+        · split at h
+          · cases h
+          · rename_i _ _ _ hemp
+            obtain ⟨h1, h2, h3, h4⟩ := stage _ h
+            refine ⟨h1, h2, h3, ?_, h4⟩
+            intro h0; rw [h0] at hemp; exact hemp rfl
+
+/-- **joiner_state**: the state a welcome gives the new member is the inviter's post-commit state — the same path,
+    roster (old members, the added ones, minus the swept leavers), group data and record epoch every receiver of
+    the add commit reaches (`childG`) — with nothing of the past: no stored exporter secret, no past-epoch secrets,
+    nothing consumed, queued or pending -/
+theorem joiner_state (c : Cl) (e : Ev) (who sw : List Nat) (hk : e.kind = .commit (.addMembers who) sw) :
+    let j := welcomeState c.maxPast (ensureSecret c.g) e
+    j.path = c.g.path ++ [e.cipher] ∧
+    j.members = (c.g.members ++ who.filter (fun m => !(c.g.members.contains m))).filter (fun m => !(sw.contains m)) ∧
+    dataOf j = dataOf c.g ∧ Synced j ∧ j.active = true ∧
+    j.secrets = [] ∧ j.past = [] ∧ j.consumed = [] ∧ j.props = [] ∧ j.pending = none := by
+  have e1 := ensureSecret_fields c.g
+  have e2 := ensureSecret_data c.g
+  refine ⟨?_, ?_, ?_, ?_, rfl, rfl, rfl, rfl, rfl, rfl⟩
+  · simp [welcomeState, joinState, syncRec, mergeCommit, hk, applyBody, e1.1]
+  · simp [welcomeState, joinState, syncRec, mergeCommit, hk, applyBody, e1.2.1]
+  · simp [welcomeState, joinState, syncRec, mergeCommit, hk, applyBody, dataOf, e1.2.2.1, e1.2.2.2.1, e2.1, e2.2.1, e2.2.2.1]
+  · have := synced_syncRec (mergeCommit c.maxPast (ensureSecret c.g) e)
+    simpa [welcomeState, joinState, Synced] using this
 
 /-- **proposal_inert**: a processed leave proposal never changes epoch, members, admins or data by
     itself; a non-admin receiver only queues it -/
 theorem proposal_inert (retry : Cl → Option (Cl × Res)) (nx : Nat) (c : Cl) (e : Ev) (hk : e.kind = .leave) :
     (step1 retry nx c e).1.g.path = c.g.path ∧ (step1 retry nx c e).1.g.members = c.g.members ∧
-    (step1 retry nx c e).1.g.admins = c.g.admins ∧ (step1 retry nx c e).1.g.name = c.g.name := by
+    (step1 retry nx c e).1.g.admins = c.g.admins ∧ (step1 retry nx c e).1.g.name = c.g.name ∧
+    (step1 retry nx c e).1.g.desc = c.g.desc ∧ (step1 retry nx c e).1.g.relays = c.g.relays ∧
+    (step1 retry nx c e).1.g.nid = c.g.nid := by
   have hf := ensureSecret_fields
+  have hd := ensureSecret_data
+  have hw : (withSecret c).g.path = c.g.path ∧ (withSecret c).g.members = c.g.members ∧
+      (withSecret c).g.admins = c.g.admins ∧ (withSecret c).g.name = c.g.name ∧
+      (withSecret c).g.desc = c.g.desc ∧ (withSecret c).g.relays = c.g.relays ∧ (withSecret c).g.nid = c.g.nid := by
+    simp [withSecret, (hf c.g).1, (hf c.g).2.1, (hf c.g).2.2.1, (hf c.g).2.2.2.1, (hd c.g).1, (hd c.g).2.1, (hd c.g).2.2.1]
   unfold step1
   split
   · simp [recordFailure, setRec]
-  · simp only
-    split
-    · simp [recordFailure, setRec, withSecret, (hf c.g).1, (hf c.g).2.1, (hf c.g).2.2.1, (hf c.g).2.2.2.1]
-    · simp only [hk]
-      have hw : (withSecret c).g.path = c.g.path ∧ (withSecret c).g.members = c.g.members ∧
-          (withSecret c).g.admins = c.g.admins ∧ (withSecret c).g.name = c.g.name := by
-        simp [withSecret, (hf c.g).1, (hf c.g).2.1, (hf c.g).2.2.1, (hf c.g).2.2.2.1]
+  · split
+    · simp [recordFailure, setRec]
+    · simp only
       split
-      · simpa [failUnprocessable, recordFailure, setRec] using hw
-      · split
-        · unfold ownMessage
-          repeat' split
-          all_goals first | (simpa [setRec, returnOwnCommit, syncRec] using hw)
+      · simpa [recordFailure, setRec] using hw
+      · simp only [hk]
+        split
+        · simpa [failUnprocessable, recordFailure, setRec] using hw
         · split
-          · simpa [failUnprocessable, recordFailure, setRec] using hw
+          · unfold ownMessage
+            repeat' split
+            all_goals first | (simpa [setRec, returnOwnCommit, syncRec] using hw)
           · split
-            · simp only [setRec, ensureSecret_path, ensureSecret_members, ensureSecret_admins, ensureSecret_name]
-              exact hw
-            · simpa [setRec] using hw
+            · simpa [failUnprocessable, recordFailure, setRec] using hw
+            · split
+              · simp only [setRec, ensureSecret_path, ensureSecret_members, ensureSecret_admins, ensureSecret_name,
+                  ensureSecret_desc, ensureSecret_relays, ensureSecret_nid]
+                exact hw
+              · simpa [setRec] using hw
 
 /-- the known sweep: a commit staged by an admin carries every queued proposal, whoever made it
     (openmls commit builders consume the proposal store) — the full "an admin's operation changes
     exactly what it names" is therefore false of the code; witness: a queued leave of member 2 is
     carried out by an unrelated rename -/
 def admin_op_exact_full : Prop :=
-  ∀ (c : Cl) (n ts idn tok : Nat), ∀ e, (stageCommit c n ts idn (.setName tok) true).2 = .ev e → e.kind = .commit (.setName tok) []
+  ∀ (c : Cl) (n ts idn : Nat) (u : DataUpd), ∀ e, (updateData c n ts idn u).2 = .ev e →
+    e.kind = .commit (.setData (applyUpd (dataOf c.g) u)) []
 
-theorem admin_op_exact_partial (c : Cl) (n ts idn tok : Nat) (e : Ev) (hp : c.g.props = [])
-    (h : (stageCommit c n ts idn (.setName tok) true).2 = .ev e) : e.kind = .commit (.setName tok) [] := by
-  unfold stageCommit at h
-  repeat' split at h
-  all_goals first | (cases h; done) | skip
-  all_goals (injection h with h; subst h; simp [(ensureSecret_fields c.g).2.2.2.2.1, hp])
+theorem admin_op_exact_partial (c : Cl) (n ts idn : Nat) (u : DataUpd) (e : Ev) (hp : c.g.props = [])
+    (h : (updateData c n ts idn u).2 = .ev e) : e.kind = .commit (.setData (applyUpd (dataOf c.g) u)) [] := by
+  rw [(data_update_admin_only c n ts idn u e h).2.2.2.2.2.2, hp]
 
 def wAdmin : Cl := { initCl 0 false 5 [0, 1, 2] [0] 1 with g := { (initG [0, 1, 2] [0] 1) with props := [2] } }
 theorem admin_op_exact_full_false : ¬ admin_op_exact_full := by
   intro h
-  have := h wAdmin 5 10 10 9 { n := 5, ts := 10, idnum := 10, cipher := 5, sender := 0, path := [], kind := .commit (.setName 9) [2] } (by decide)
+  have := h wAdmin 5 10 10 { name := some 9 } { n := 5, ts := 10, idnum := 10, cipher := 5, sender := 0, path := [], kind := .commit (.setData { initData [0] 1 with name := 9 }) [2] } (by decide)
   revert this; decide
+
+/-! ### the admin set can change: authorisation follows the receiver's CURRENT state -/
+
+/-- admins 0 and 1; admin 0 demotes 1 (new admin set [0]); afterwards a rename by 1 — created by the
+    demoted client in the new epoch, e.g. with the MLS library directly — is refused, while the same client's
+    pure self-update is still accepted -/
+def wTwo : Cl := initCl 2 false 5 [0, 1, 2] [0, 1] 1
+def wDemote : Ev := { n := 1, ts := 10, idnum := 5, cipher := 1, sender := 0, path := [], kind := .commit (.setData { initData [0] 1 with name := 1 }) [] }
+def wLateRename : Ev := { n := 2, ts := 20, idnum := 6, cipher := 2, sender := 1, path := [1], kind := .commit (.setData { initData [0, 1] 1 with name := 7 }) [] }
+def wLateUpdate : Ev := { n := 3, ts := 20, idnum := 7, cipher := 3, sender := 1, path := [1], kind := .commit .selfUpdate [] }
+theorem witness_demoted_admin_refused :
+    (deliver wTwo wDemote 0).2 = .commit ∧ (deliver wTwo wDemote 0).1.g.admins = [0] ∧
+    (deliver (deliver wTwo wDemote 0).1 wLateRename 0).2 = .err eNonAdmin ∧
+    (deliver (deliver wTwo wDemote 0).1 wLateRename 0).1.g.admins = [0] ∧
+    (deliver (deliver wTwo wDemote 0).1 wLateUpdate 0).2 = .commit := by decide
+
+/-- … and a member promoted by an admin's commit may change the data from the next epoch on -/
+def wPromote : Ev := { n := 1, ts := 10, idnum := 5, cipher := 1, sender := 0, path := [], kind := .commit (.setData (initData [0, 1] 1)) [] }
+def wOne : Cl := initCl 2 false 5 [0, 1, 2] [0] 1
+theorem witness_promoted_member_accepted :
+    (deliver wOne { wLateRename with path := [] } 0).2 = .err eNonAdmin ∧
+    (deliver (deliver wOne wPromote 0).1 wLateRename 0).2 = .commit ∧
+    (deliver (deliver wOne wPromote 0).1 wLateRename 0).1.g.name = 7 := by decide
 
 end MdkVerif.Props.C05
